@@ -32,8 +32,8 @@ func coqHost(h *hatypes.Host) string {
 	return fmt.Sprintf("(mk_thost %s %s %s %s %s)", hx.Str(h.Hostname), hx.Bool(h.SSLPassthrough()), hx.Str(h.HTTPPassthroughBackend), hx.Bool(h.HasTLS()), hx.List(ps))
 }
 
-// TmplState prints the observed model state as a Coq term of type Model.TmplRefs.tstate.
-func TmplState(c haproxy.Config) string {
+// TmplHosts prints the hosts part of the model state ("<hosts> <default host>").
+func TmplHosts(c haproxy.Config) string {
 	var hosts []string
 	def := "None"
 	names := make([]string, 0)
@@ -49,6 +49,13 @@ func TmplState(c haproxy.Config) string {
 			hosts = append(hosts, coqHost(h))
 		}
 	}
+	return hx.List(hosts) + " " + def
+}
+
+// TmplState prints the observed model state as a Coq term of type Model.TmplRefs.tstate;
+// hosts is the hosts part (TmplHosts of this state, or of the state the frontend maps were
+// last built from), prefix the --local-filesystem-prefix to strip from file names.
+func TmplState(c haproxy.Config, hosts, prefix string) string {
 	var backs []string
 	ids := make([]string, 0)
 	for id := range c.Backends().Items() {
@@ -95,17 +102,17 @@ func TmplState(c haproxy.Config) string {
 		if dh := t.DefaultHost(); dh != nil && !dh.Backend.IsEmpty() {
 			d = "(Some " + hx.Str(dh.Backend.String()) + ")"
 		}
-		tcps = append(tcps, fmt.Sprintf("(mk_ttcp %s %s %s)", hx.N(t.Port()), hx.List(hs), d))
+		tcps = append(tcps, fmt.Sprintf("(mk_ttcp %s %s %s %s)", hx.N(t.Port()), hx.List(hs), d, hx.Bool(t.HasTLS())))
 	}
 	f := c.Frontend()
 	for _, b := range f.AuthProxy.BindList {
 		binds = append(binds, fmt.Sprintf("(mk_tbind %s %s)", hx.Str(b.AuthBackendName), hx.Str(b.Backend.String())))
 	}
 	g := c.Global()
-	return fmt.Sprintf("(mk_tstate %s %s %s\n   %s %s %s %s %s %s\n   %s %s %s %s %s %s %s)",
-		hx.List(hosts), def, hx.Bool(c.Hosts().HasSSLPassthrough()),
+	return fmt.Sprintf("(mk_tstate %s %s\n   %s %s %s %s %s %s\n   %s %s %s %s %s %s %s %s)",
+		hosts, hx.Bool(c.Hosts().HasSSLPassthrough()),
 		hx.List(backs), defb, hx.List(uls), hx.List(res), hx.List(tcpb), hx.List(tcps),
-		hx.Str(f.AuthProxy.Name), hx.List(binds), hx.Bool(f.Maps != nil), hx.Str(f.Name),
+		hx.Str(f.AuthProxy.Name), hx.List(binds), hx.Bool(f.Maps != nil), hx.Str(f.Name), hx.Str(strings.ReplaceAll(f.CrtListFile, prefix, "")),
 		hx.Bool(g.Acme.Enabled), hx.Bool(len(g.ModSecurity.Endpoints) > 0), hx.Bool(g.Prometheus.Port != 0))
 }
 
@@ -176,7 +183,18 @@ func (c *Cfg) ParsedRefs() string {
 	return hx.List(out)
 }
 
+// ParsedCrtLists prints the crt-list references of the binds: (section, file).
+func (c *Cfg) ParsedCrtLists() string {
+	var out []string
+	for _, s := range c.Sections {
+		for _, f := range s.CrtLists {
+			out = append(out, hx.Tuple(hx.Str(s.Name), hx.Str(f)))
+		}
+	}
+	return hx.List(out)
+}
+
 // TmplCase prints one observed state of the CTmpl correspondence case.
 func TmplCase(model string, c *Cfg, ok bool) string {
-	return "(" + strings.Join([]string{model, c.ParsedSections(), c.ParsedRefs(), hx.Bool(ok)}, ",\n   ") + ")"
+	return "(" + strings.Join([]string{model, c.ParsedSections(), c.ParsedRefs(), c.ParsedCrtLists(), strs(c.Files), hx.Bool(ok)}, ",\n   ") + ")"
 }
